@@ -18,7 +18,7 @@ func TestMain(m *testing.M) { kit.Main(m) }
 
 const rule = "provider populations from the provider zoo (11 concrete types, 6 overlapping interfaces, named/unnamed, lazy/eager, Comp() results drawn) x 1-3 run-time built consumers with 1-4 unnamed points of kinds *T, I, []*T, []I, any, []any under wire:\"\" / func:\"Comp\" / func:\"Comp,returns=..\"; oracle = plain-reflect reference candidate set over the registered population; non-trivial = some point has >=2 admissible components and the population holds a same-shaped non-candidate; distinct by scenario shape"
 
-var kinds = []int{0, 1, 2, 3, 4, 5, 6, 7, 8, 13, 14, 15, 17, 18, 17} // 17/18 = alt-package PA / PB
+var kinds = []int{0, 1, 2, 3, 4, 5, 6, 7, 8, 13, 14, 15, 17, 18, 17, 19, 19, 20, 21} // 17/18 = alt-package PA / PB; 19 = lazy post-processor that is also a provider; 20/21 = zero-size with qualifier / Primary
 var names = []string{"n1", "n2", "n3", "n4", "n5", "n6"}
 var compVals = []string{"a", "b", "c"}
 
@@ -38,6 +38,19 @@ func genField(t *rapid.T, provs []pop.ProvSpec) pop.FieldSpec {
 	default:
 		return pop.FieldSpec{Type: typ, Tag: fmt.Sprintf(`wire:"%s"`, opt)}
 	}
+}
+
+// EmbConsumer declares its points as EMBEDDED tagged fields (the decorator shape: the embedded interface / pointer is
+// the injection point itself, it is not "seen through").
+type IPlain interface{ isPlain() }
+type PlainT struct{ N int }
+
+func (*PlainT) isPlain() {}
+
+type EmbConsumer struct {
+	IPlain  `wire:",required=false"`
+	*PlainT `wire:",required=false"`
+	Own     []zoo.IAB `wire:",required=false"`
 }
 
 func TestTypeDirected(t *testing.T) {
@@ -62,6 +75,9 @@ func TestTypeDirected(t *testing.T) {
 		}
 		s.Finish(t)
 		in := s.Instantiate()
+		if rapid.IntRange(0, 2).Draw(t, "embeddedpoints") == 0 {
+			in.Extra = append(in.Extra, &EmbConsumer{}, &PlainT{N: 1})
+		}
 		// now and then slice points already hold elements when the start begins: they must be replaced, not extended
 		prefilled := rapid.IntRange(0, 3).Draw(t, "prefillslices") == 0
 		if prefilled {
